@@ -34,6 +34,14 @@ def replay_form(p: dict) -> int:
             print(v["key"], "::", v["what"])
         print("REPRODUCED" if r["violations"] else "not reproduced on this tree")
         return 1 if r["violations"] else 0
+    if p.get("kind") == "builds":
+        from .validc import replay_builds
+
+        return replay_builds(p)
+    if p.get("kind") == "rejection":
+        from .validc import replay_rejection
+
+        return replay_rejection(p)
     if p.get("kind") == "bounds":
         from .kernelprops import replay_bounds
 
